@@ -131,6 +131,10 @@ func tokSpaces(r *Run) []space {
 		cfgs = append(cfgs, Cfg{Flags: f, HdrCap: -1, ValCap: -1})
 	}
 	cfgs = append(cfgs, Cfg{Flags: uint(sipsp.POptTokSpTermF), Offs: 5, Junk: "a", HdrCap: -1, ValCap: -1})
+	// the input-end flag on EVERY call (not only the last one): with it only an open quoted string still suspends
+	for _, f := range []uint{0, uint(sipsp.POptParamSemiSepF | sipsp.POptTokCommaTermF), uint(sipsp.POptTokURIParamF), uint(sipsp.POptTokURIHdrF), uint(sipsp.POptTokSpTermF)} {
+		cfgs = append(cfgs, Cfg{Flags: f | uint(sipsp.POptInputEndF), HdrCap: -1, ValCap: -1, EndMode: true})
+	}
 	return []space{{name: "tokparam/bytes", gen: byteTrie{sig, L}, cfgs: cfgs, beyondErr: 2, beyondOk: 2, split: 2},
 		{name: "tokparam/frags", gen: seqTrie{Menu: bs("branch", "=", "z9hG4bK", ";", " ", "\r\n ", "\"q\\\"\"", "lr", "&", ",", "%", "4"), K: r.pick(5, 6), Term: append(bs("?", " x", ",x"), hdrEnds...)},
 			cfgs: []Cfg{{Flags: uint(sipsp.POptTokSpTermF), HdrCap: -1, ValCap: -1}, {Flags: uint(sipsp.POptTokCommaTermF | sipsp.POptParamSemiSepF), HdrCap: -1, ValCap: -1},
@@ -156,6 +160,7 @@ func uriListSpaces(r *Run, hdrs bool) []space {
 		}
 	}
 	cfgs = append(cfgs, Cfg{Flags: flagsets[0], ValCap: 2, HdrCap: -1, Offs: 5, Junk: "a"})
+	cfgs = append(cfgs, Cfg{Flags: flagsets[0] | uint(sipsp.POptInputEndF), ValCap: 2, HdrCap: -1, EndMode: true}, Cfg{Flags: flagsets[len(flagsets)-1] | uint(sipsp.POptInputEndF), ValCap: -1, HdrCap: -1, EndMode: true})
 	menu := bs("transport", "=", "udp", ";", "&", "lr", "TTL", "1", " ", "\r\n ", "\"q\"", "maddr", "x", "%", "4")
 	return []space{{name: "urilist/bytes", gen: byteTrie{sig, L}, cfgs: cfgs, beyondErr: 2, beyondOk: 2, split: 2, finalFlags: []uint{uint(sipsp.POptInputEndF)}},
 		{name: "urilist/frags", gen: seqTrie{Menu: menu, K: r.pick(4, 5), Term: append(bs("?", " x", ","), hdrEnds...)}, cfgs: cfgs[:3], beyondErr: 2, beyondOk: 1, split: 2,
@@ -208,6 +213,8 @@ var hdrLineMenuFull = []string{
 	"l: 000000007\r\n",
 	"Content-Length: 0000000002\r\n",
 	"To: <sip:c@d>;\r\n",
+	"To: <sip:c@d>;lr; \t\r\n",
+	"Contact: <sip:a@h>;x= , sip:b@h;y;\t \r\n",
 	"From: sip:a@b;\r\n",
 	"Contact: <sip:a@h>; , sip:b@h;\r\n",
 	"P-Asserted-Identity: <sip:p@q>;;\r\n",
@@ -252,6 +259,7 @@ var hdrLineMenuQuick = []string{
 	"Expires: 4294967295\r\n",
 	"Content-Length: 0000000002\r\n",
 	"To: <sip:c@d>;\r\n",
+	"t: <sip:c@d>;lr; \t\r\n",
 	"v: SIP/2.0/TCP h;branch=1\r\n",
 	"X-Gen: a\r\n b\r\n",
 	"X-W  : v  \r\n",
